@@ -402,6 +402,8 @@ impl<'r> Eng<'r> {
         let guard_before = if self.flags.foreign_delete_guard && ev.sem.kind == 5 { Some(self.victim_view(&ev.sem.pubkey)) } else { None };
         let store = self.store.as_ref().unwrap();
         let bytes = ev.bytes.clone();
+        // informational only (no property lists it): bytes of the event map consumed by a store that then fails
+        let map_bytes_before = if before.is_some() { store.stats().ok().map(|s| s.event_bytes) } else { None };
         let res = catch(|| {
             // (an OwnedEvent wraps the bytes directly: the harness does not go through the library's
             // own delineation to hand an event in)
@@ -420,6 +422,12 @@ impl<'r> Eng<'r> {
             }
         };
         self.log.push(format!("store {} [{}] -> {}", ev.short(), self.model.reasons(&ev.sem).describe(), out.short()));
+        if let (Some(b), Outcome::Err(c)) = (map_bytes_before, &out) {
+            if let Some(a) = self.store.as_ref().and_then(|s| s.stats().ok()).map(|s| s.event_bytes) {
+                let class = match c { ErrClass::Other(_) => "Other".to_string(), c => format!("{c:?}") };
+                self.rep.count(&format!("info_failed_store_{}:{}", if a != b { "consumed_event_map_bytes" } else { "left_event_map_untouched" }, class));
+            }
+        }
         self.note_map_len();
         // outcome rules
         let named = self.foreign_named_ids.contains(&ev.sem.id) || addr_of(&ev.sem).map(|a| self.foreign_named_addrs.contains(&a)).unwrap_or(false);
@@ -1136,6 +1144,17 @@ impl<'r> Eng<'r> {
             }
             for f in fs {
                 filters.push((f, e.id));
+            }
+            // one-byte tag names that are not letters cannot be asked for in JSON, but a filter built from parts can
+            // name them: an event that is gone must not come back through such a filter either (only that direction
+            // is checked - whether such tags are indexed at all is not part of the property)
+            for t in e.tags.iter() {
+                if t.len() >= 2 && t[0].len() == 1 && !t[0].as_bytes()[0].is_ascii_alphabetic() && !self.model.r.contains_key(&e.id) {
+                    let c = vec![(t[0].clone(), vec![t[1].clone()])];
+                    filters.push((SemFilter { tags: c.clone(), ..SemFilter::empty() }, e.id));
+                    filters.push((SemFilter { tags: c.clone(), authors: vec![e.pubkey], ..SemFilter::empty() }, e.id));
+                    filters.push((SemFilter { tags: c, kinds: vec![e.kind], ..SemFilter::empty() }, e.id));
+                }
             }
         }
         self.rep.count_n("derived_filters_run", filters.len() as u64);
